@@ -55,7 +55,7 @@ CHECKS.update({
                  "DictObs.tla validates every dictionary column of every recorded stream against it (observer events with the cardinalities and totals the code itself reports, schema-update groups, and the dictionary an independent reader holds), with the true capacities. "
                  "Unbounded-cardinality columns are fed for many batches under every dictionary limit option and reset threshold (overflow, reset and slow-crossing regimes); the sizes of the dictionaries an independent Arrow reader holds after each payload "
                  "are compared by OtapObs.tla with the configured limit and with what the index type can address.", "7 C13"),
-    "C14": _otap("model_checking", "Allocator.tla (in-use counter vs. limit, two allocators with Limit1 <= Limit2 on the same requests) is model checked exhaustively for WithinLimit, Accounting, Monotone; TLC-simulated operation sequences are replayed into the real LimitedAllocator and judged step by step by AllocObs.tla. "
+    "C14": _otap("model_checking", "Allocator.tla (in-use counter vs. limit, two allocators with Limit1 <= Limit2 on the same requests) is model checked exhaustively for WithinLimit, Accounting, Monotone; AllocatorInd.tla (the same counter logic over unbounded integers, blocks abstracted to their total) is proved by Apalache (inductive invariant, all limits / sizes / history lengths) and TLC checks that Allocator.tla refines it; TLC-simulated operation sequences are replayed into the real LimitedAllocator and judged step by step by AllocObs.tla. "
                  "The same recorded stream is fed to consumers with a ladder of limits from 16 B to 70 MiB (a consumer is retired at its first refusal); OtapObs.tla checks no panic, every refusal recognisable as the memory-limit error, reported in-use <= limit (recording MeterProvider), "
                  "monotonicity in the limit, and equality (RoundTrip oracle) of everything decoded under different limits.", "7 C14"),
     "C15": _otap("exploration", "Every producer runs on a CheckedAllocator; histories with schema updates, dictionary overflow / reset / rebuild, mixed signals, re-sent inputs and encode errors in the middle; OtapObs.tla requires balance 0 after Close and byte-identical input before/after every encode.", "7 C15"),
